@@ -3,7 +3,7 @@
 # Applies a seeded change to /repo's working tree, runs the given checks,
 # prints one line per check, and ALWAYS restores /repo afterwards.
 set -u
-patch="$1"; tier="$2"; shift 2
+patch="$(readlink -f "$1")"; tier="$2"; shift 2
 cd /verif
 if ! git -C /repo diff --quiet; then echo "refusing: /repo working tree is dirty"; exit 2; fi
 restore() { git -C /repo checkout -- . ; git -C /repo clean -fdq -- . >/dev/null 2>&1; }
